@@ -219,7 +219,7 @@ def check_semtype_ops(cx, rep, F_, model):
             rep.anchor_missing("C06.3", gid)
             continue
         try:
-            res = semtype_op_model(tree, op)
+            res = semtype_op_model(tree, op, F_.hir)
         except Uninterpretable as e:
             rep.ob("C06.3", "%s/uninterpretable" % op, False, "cannot interpret %s: %s" % (gid, e), "%s:%s" % (f.file, e.line))
             continue
@@ -284,7 +284,7 @@ def check_semtype_ops(cx, rep, F_, model):
                        "SemTypeOps::%s combines proper parts with %s%s" % (op, a[1], " (operands swapped)" if a[2] else ""), f.loc())
 
 
-def semtype_op_model(tree, op):
+def semtype_op_model(tree, op, hir=None):
     """extract: formula of `all`, formula of `some`, the (Some/None,Some/None) arms, whether True results are folded"""
     body = tree["body"]
     env = {}
@@ -310,6 +310,23 @@ def semtype_op_model(tree, op):
             env["some"] = some_f
         if n["k"] == "AssignOp" and n["l"]["k"] == "Path" and n["l"].get("name") == "all" and n["op"] in ("BitOr", "BitOrAssign"):
             folds_true = True
+        # the same fold done by a private helper that receives `&mut all`
+        if n["k"] == "Call" and hir is not None and n.get("callee") in hir:
+            for ai, a in enumerate(n["args"]):
+                if a["k"] == "AddrOf" and a.get("mut") and a["e"]["k"] == "Path" and a["e"].get("name") == "all":
+                    callee = hir[n["callee"]]
+                    if ai < len(callee["params"]) and callee["params"][ai]["k"] == "P.Binding":
+                        plid = callee["params"][ai].get("lid")
+                        for m in walk(callee["body"]):
+                            if m["k"] != "Match":
+                                continue
+                            for arm in m["arms"]:
+                                if not (arm["pat"].get("def") or "").endswith("SubType::True"):
+                                    continue
+                                for x in walk(arm["body"]):
+                                    if x["k"] == "AssignOp" and x["op"] in ("BitOr", "BitOrAssign") and any(
+                                            y["k"] == "Path" and y.get("lid") == plid for y in walk(x["l"])):
+                                        folds_true = True
         if n["k"] == "Match" and n["scrut"]["k"] == "Tup" and len(n["scrut"]["es"]) == 2:
             for a in n["arms"]:
                 p = a["pat"]
